@@ -223,6 +223,73 @@ def run_r2(ctx, rule):
         rule.bad("request_more/paths", "request_more: no returning path / no realign path found", kind="anchor-missing")
 
 
+def unrolled_paths(fn):
+    """returning paths, plus each of them entered once more through every loop path that leads back to one of
+    its blocks (one unrolling): what is computed before a loop and used after it is seen together with an iteration"""
+    c = cfg(fn)
+    allp = list(c.paths())
+    out = []
+    for p, cut in allp:
+        if fn.term(p[-1])["k"] == "return":
+            out.append((p, 0))
+    for lp, cut in allp:
+        if cut is None:
+            continue
+        for p, n in list(out):
+            if n == 0 and cut in p:
+                out.append((lp + p[p.index(cut):], 1))
+    return out
+
+
+def run_r7(ctx, rule):
+    """observers look at the window where the cursor is *now*: the index / range handed to the buffer is the
+    current pos_in_buf (+ offset), also after a refill inside the same call moved the window"""
+    facts = ctx.facts
+    n_arg = Aff.sym("arg2")
+
+    def cur(ex, st, name):
+        return ex.read_place(st, {"l": 1, "p": ["*", {"f": 0, "name": name}]})
+
+    n = 0
+    for m, kind in (("request_byte_at_offset", "byte"), ("request_byte_at_offset_cold", "byte"), ("buf", "window"), ("buf_ptr", "ptr")):
+        try:
+            fn = reader_fn(facts, m)
+        except Exception:
+            rule.bad("%s/anchor" % m, "anchor missing: DeferredReader::%s" % m, kind="anchor-missing")
+            continue
+        seen = 0
+        for p, unrolled in unrolled_paths(fn):
+            ex = PathExec(facts, fn)
+            st = ex.run_path(p)
+            obs = [e for e in st.events if e[0] == "call" and len(e[2][1]) > 1 and (e[2][0].endswith("::index") or e[2][0].endswith("get_unchecked") or e[2][0].endswith("const_ptr::add"))]
+            if not obs:
+                continue
+            e = obs[-1]
+            later = [x for x in st.events[st.events.index(e) + 1:] if x[0] == "call"]
+            idx = e[2][1][1]
+            pos = cur(ex, st, "pos_in_buf")
+            tag = "%s/%s" % (m, "after-refill" if unrolled else "direct")
+            seen += 1
+            n += 1
+            if later and any(not x[2][0].startswith(("core::", "<core::")) for x in later):
+                rule.bad(tag + "/call-after-observation", "%s calls %s after it looked at the buffer" % (m, later[0][2][0]), fn.loc(e[1]), kind="unmodelled-idiom")
+                continue
+            if kind == "byte":
+                law(rule, tag + "/index", "%s(k) reads buf[pos_in_buf + k] with the cursor as it is at that moment" % m, idx, pos + n_arg, fn.loc(e[1]))
+            elif kind == "ptr":
+                law(rule, tag + "/offset", "buf_ptr() points at buf[pos_in_buf]", idx, pos, fn.loc(e[1]))
+            else:
+                ok = isinstance(idx, tuple) and idx[0] == "agg" and len(idx[3]) == 2
+                if ok:
+                    law(rule, tag + "/start", "buf() starts at the cursor", idx[3][0], pos, fn.loc(e[1]))
+                    law(rule, tag + "/end", "buf() ends at the end of the window", idx[3][1], pos + cur(ex, st, "valid_len"), fn.loc(e[1]))
+                else:
+                    rule.bad(tag + "/range", "buf() does not return a plain range of the buffer", fn.loc(e[1]), kind="unmodelled-idiom")
+        if seen == 0:
+            rule.bad("%s/no-observation" % m, "%s: no path that looks at the buffer was found" % m, fn.loc(), kind="anchor-missing")
+    rule.note("observer_paths", n)
+
+
 def run_r3(ctx, rule):
     facts = ctx.facts
     fn = reader_fn(facts, "request_more")
@@ -382,6 +449,8 @@ def run(ctx):
     run_r5(ctx, r5)
     r6 = ctx.rule("C02-R6", "from_buf_reader chains the already buffered bytes in front of the inner reader", floor=2)
     run_r6(ctx, r6)
+    r7 = ctx.rule("C02-R7", "observers read the window at the current cursor, also after a refill inside the same call", floor=6)
+    run_r7(ctx, r7)
     ctx.assume("Vec::resize / truncate / copy_within and slice indexing of std behave as documented")
     ctx.assume("wrapping arithmetic is treated as ring arithmetic (laws hold modulo 2^64 as the API documents)")
     return "other", "invariant-preservation obligations of every field-writing reader method, decided by affine path execution over MIR", {}
